@@ -180,6 +180,7 @@ class FactBase:
         self.raw = facts
         self.meta = meta or {}
         self.bodies = {b["path"]: b for b in facts["bodies"]}
+        self.promoted = {b["path"]: b for b in facts.get("promoted", [])}
         self.adts = {a["path"]: a for a in facts["adts"]}
         self.externs = facts["externs"]
         self.consts = {c["path"]: c for c in facts["consts"]}
@@ -187,6 +188,12 @@ class FactBase:
         self.impls = facts["impls"]
         self.statics = facts["statics"]
         self.features = set(facts.get("cargo_features", []))
+        self._impl_methods = {}
+        for p, b in self.bodies.items():
+            tp = b.get("impl_trait_path")
+            sk = b.get("impl_self_kind") or {}
+            if tp and sk.get("k") == "adt":
+                self._impl_methods[(tp, sk.get("path"), b.get("name"))] = p
         self._children = {}
         for p, b in self.bodies.items():
             if b["kind"] == "Closure":
@@ -210,6 +217,17 @@ class FactBase:
 
     def by_suffix(self, suffix, what=None):
         return self.one_body(lambda b: b["path"].endswith(suffix) and b["kind"] != "Closure", what or suffix)
+
+    def impl_method(self, fn):
+        """Local impl body a trait-method call with a local ADT as Self resolves to, or None."""
+        tr = fn.get("trait")
+        sk = fn.get("self_kind") or {}
+        while sk.get("k") == "ref":
+            sk = sk.get("inner") or {}
+        if tr and sk.get("k") == "adt":
+            p = self._impl_methods.get((tr, sk.get("path"), fn.get("name")))
+            return self.bodies.get(p) if p else None
+        return None
 
     def closures_of(self, root_path):
         return sorted(self._children.get(root_path, []), key=closure_key)
